@@ -602,10 +602,41 @@ tx_outs:\n{tx_outs}
         """Returns whether the input has a valid signature"""
         # get the relevant input
         tx_in = self.tx_ins[input_index]
+        script_sig = tx_in.script_sig
+        script_pubkey = tx_in.script_pubkey(self.network)
+        # the p2sh and witness rules depend on the output being spent,
+        # not on what the ScriptSig happens to leave on the stack
+        allow_p2sh, allow_witness = False, False
+        if (
+            script_pubkey.is_p2wpkh()
+            or script_pubkey.is_p2wsh()
+            or script_pubkey.is_p2tr()
+        ):
+            # BIP141/BIP341: a witness program is spent with an empty ScriptSig
+            if len(script_sig.commands) > 0:
+                return False
+            allow_witness = True
+        elif script_pubkey.is_p2sh():
+            # BIP16: the ScriptSig only pushes data and ends with the RedeemScript
+            commands = script_sig.commands
+            if len(commands) == 0 or not isinstance(commands[-1], bytes):
+                return False
+            for command in commands:
+                if isinstance(command, int) and command > 96:
+                    return False
+            allow_p2sh = True
+            redeem_script = RedeemScript.convert(commands[-1])
+            if redeem_script.is_p2wpkh() or redeem_script.is_p2wsh():
+                # BIP141: the ScriptSig is exactly the push of the witness program
+                if len(commands) != 1:
+                    return False
+                allow_witness = True
         # combine the scripts
-        combined_script = tx_in.script_sig + tx_in.script_pubkey(self.network)
+        combined_script = script_sig + script_pubkey
         # evaluate the combined script
-        return combined_script.evaluate(self, input_index)
+        return combined_script.evaluate(
+            self, input_index, allow_p2sh=allow_p2sh, allow_witness=allow_witness
+        )
 
     def verify(self):
         """Verify this transaction"""
